@@ -187,8 +187,11 @@ def run_property(prop, tier, seed, workers=None, replay=None, keep_logs=False, q
 
     known = load_known()
     known_keys = {k["key"]: k for k in known if k["property"] == prop and k["status"] == "known"}
-    os.makedirs(os.path.join(VERIF, "replay"), exist_ok=True)
-    os.makedirs(os.path.join(VERIF, "evidence"), exist_ok=True)
+    # VERIF_OUT redirects evidence/ and replay/ (used when the checks are pointed at a seeded copy of mdtraj, so that
+    # the committed evidence always comes from runs against /repo itself)
+    OUT = os.environ.get("VERIF_OUT", VERIF)
+    os.makedirs(os.path.join(OUT, "replay"), exist_ok=True)
+    os.makedirs(os.path.join(OUT, "evidence"), exist_ok=True)
 
     # a worker that died (segfault, abort, os._exit) while running a case: let the module decide
     for c in crashed:
@@ -214,7 +217,7 @@ def run_property(prop, tier, seed, workers=None, replay=None, keep_logs=False, q
         reports = vsan.parse_asan_logs(logdir, tag="asan-" + gname)
         for rp_ in reports:
             if rp_["verdict"]:
-                keep = os.path.join(VERIF, "replay", f"{prop}-asan-{sanitize_name(rp_)}.log")
+                keep = os.path.join(os.environ.get("VERIF_OUT", VERIF), "replay", f"{prop}-asan-{sanitize_name(rp_)}.log")
                 try:
                     shutil.copy(rp_["log"], keep)
                 except OSError:
@@ -270,7 +273,7 @@ def run_property(prop, tier, seed, workers=None, replay=None, keep_logs=False, q
     new_viol, known_seen = [], []
     for key, lst in sorted(viol_by_key.items()):
         r, v = lst[0]
-        rp = os.path.join(VERIF, "replay", f"{prop}-{sanitize(key.split('/', 1)[-1])}-{r['hash']}.json")
+        rp = os.path.join(OUT, "replay", f"{prop}-{sanitize(key.split('/', 1)[-1])}-{r['hash']}.json")
         if not replay:
             with open(rp, "w") as f:
                 json.dump(dict(property=prop, key=key, tier=tier, seed=seed, case=r["case"], violation=v,
@@ -328,7 +331,7 @@ def run_property(prop, tier, seed, workers=None, replay=None, keep_logs=False, q
               assumptions=list(getattr(mod, "ASSUMPTIONS", [])), wall_s=wall,
               violations=sum(n for _, n, _, _ in new_viol))
     if not replay:
-        evp = os.path.join(VERIF, "evidence", f"{prop}.json")
+        evp = os.path.join(OUT, "evidence", f"{prop}.json")
         tmp = evp + ".tmp"
         with open(tmp, "w") as f:
             json.dump(ev, f, indent=1, sort_keys=False)
